@@ -16,6 +16,9 @@ EXTENDS StateStore, TraceLib
 
 VARIABLES l, hashOf, infl, rid
 tvars == <<vars, l, hashOf, infl, rid>>
+\* what the rest of a trace can depend on: linearisation orders that differ only in the order of
+\* commuting requests (creation order, last operation, height bookkeeping) are one state
+tview == <<content, committed, pending, l, hashOf, infl, rid>>
 
 NoBatches(n) == {}
 
